@@ -107,6 +107,51 @@ Proof.
 Qed.
 Print Assumptions C15_exact_when_canonical_multi_partial.
 
+(* instance: the registry syncer (identity_registered_event) as repaired (D8 fix), with the
+   repository's constants *)
+Theorem C15_exact_when_canonical_registry_partial :
+  forall sync_start : Z, 0 <= sync_start ->
+  forall (inputs : list (sync_input uev)) (v : view uev) (faults : list fault * list fault),
+    let fl := registry_flavour sync_start registry_assumed_reorg_depth registry_max_request_block_range false in
+    let history := inputs ++ [(v, faults)] in
+    universe_ok registry_key registry_admissible fl (map fst history) ->
+    (forall u, In u (map fst history) -> quiet_before registry_admissible u sync_start) ->
+    heads_ok registry_key ukey_eqb registry_admissible registry_merge fl ginit history ->
+    forall k h b,
+      st_status (g_st (grun registry_key ukey_eqb registry_admissible registry_merge fl history)) = Some (k, h) ->
+      block_at v k = Some b -> bk_hash b = h ->
+      st_rows (g_st (grun registry_key ukey_eqb registry_admissible registry_merge fl history))
+      = rows_of registry_admissible v sync_start k.
+Proof.
+  intros sync_start Hs inputs v faults.
+  apply (exact_when_canonical uev ukey registry_key ukey_eqb registry_admissible registry_merge ukey_eqb_spec
+           (registry_flavour sync_start registry_assumed_reorg_depth registry_max_request_block_range false));
+    simpl; try reflexivity; try exact Hs; vm_compute; congruence.
+Qed.
+Print Assumptions C15_exact_when_canonical_registry_partial.
+
+(* instance: the Gnosis sequencer syncer (transaction_submitted_event) as repaired (D8 fix) *)
+Theorem C15_exact_when_canonical_sequencer_partial :
+  forall sync_start : Z, 0 <= sync_start ->
+  forall (inputs : list (sync_input uev)) (v : view uev) (faults : list fault * list fault),
+    let fl := sequencer_flavour sync_start sequencer_assumed_reorg_depth sequencer_max_request_block_range false in
+    let history := inputs ++ [(v, faults)] in
+    universe_ok sequencer_key sequencer_admissible fl (map fst history) ->
+    (forall u, In u (map fst history) -> quiet_before sequencer_admissible u sync_start) ->
+    heads_ok sequencer_key ukey_eqb sequencer_admissible sequencer_merge fl ginit history ->
+    forall k h b,
+      st_status (g_st (grun sequencer_key ukey_eqb sequencer_admissible sequencer_merge fl history)) = Some (k, h) ->
+      block_at v k = Some b -> bk_hash b = h ->
+      st_rows (g_st (grun sequencer_key ukey_eqb sequencer_admissible sequencer_merge fl history))
+      = rows_of sequencer_admissible v sync_start k.
+Proof.
+  intros sync_start Hs inputs v faults.
+  apply (exact_when_canonical uev ukey sequencer_key ukey_eqb sequencer_admissible sequencer_merge ukey_eqb_spec
+           (sequencer_flavour sync_start sequencer_assumed_reorg_depth sequencer_max_request_block_range false));
+    simpl; try reflexivity; try exact Hs; vm_compute; congruence.
+Qed.
+Print Assumptions C15_exact_when_canonical_sequencer_partial.
+
 (* a history with a fork whose hypotheses hold: two views, the second forks one block below
    the synced block; after the resync the table is the second view's events *)
 Definition c15_ex_a : view uev :=
@@ -160,7 +205,8 @@ Theorem C15_exact_when_canonical_refuted :
 Proof. exact exact_when_canonical_refuted. Qed.
 Print Assumptions C15_exact_when_canonical_refuted.
 
-(* D8 on the legacy flavour (syncRange swallows the error of its transaction): one Sync over
+(* D8 on the legacy flavour (legacy_registry_flavour: syncRange swallows the error of its
+   transaction, as on the pinned tree before fix commit 0b3d76a): one Sync over
    three ranges whose first transaction fails ends with a canonical position and a missing
    event, all hypotheses (including quiet_before) holding. *)
 Theorem C15_exact_when_canonical_legacy_refuted :
